@@ -896,7 +896,9 @@ impl Tree {
         {
             let part = self.get_partition(&node.id)?;
 
-            if part.count_ones(..) == 1 {
+            // Skip trivial splits: at most one leaf on either side
+            let ones = part.count_ones(..);
+            if ones <= 1 || ones + 1 >= part.len() {
                 continue;
             }
 
